@@ -44,7 +44,11 @@ ObsObsEnd(o, e) ==
               ~o.rq[e.q].other /\ o.shutAt >= 0 /\ e.cls \notin ErrClasses, "C18_AllPendingFail")
 
 ObsCall(o, e) == [o EXCEPT !.hd = Put(@, e.inv, "running")]
-ObsRelease(o, e) == IF Has(o.hd, e.inv) THEN [o EXCEPT !.hd[e.inv] = "finished"] ELSE o
+\* a handler that produces its outcome after shutdown() returned was evidently still running, not cancelled
+ObsRelease(o, e) ==
+  IF Has(o.hd, e.inv)
+    THEN FlagIf([o EXCEPT !.hd[e.inv] = "finished"], o.retAt >= 0 /\ o.hd[e.inv] = "running", "C18_HandlersCancelled")
+    ELSE o
 ObsCancelled(o, e) == IF Has(o.hd, e.inv) THEN [o EXCEPT !.hd[e.inv] = "cancelled"] ELSE o
 
 ObsShutdown(o, e) == [o EXCEPT !.shutAt = e.t]
